@@ -156,7 +156,7 @@ func eqSlot(a, b any) bool {
 	case []any, map[string]any:
 		return false
 	}
-	return a == b
+	return sameValue(a, b) // == where Go defines it; the two non-comparable derived fixture types by their parts
 }
 
 func sameTop(a, b any) bool {
